@@ -120,6 +120,16 @@ Proof.
   unfold q_rx_count. change 0 with (0 mod two64) at 1. now rewrite q_rx_fold.
 Qed.
 
+Lemma counters_stream ps :
+  let s := q_write_all (mkQtx [] 0) ps in
+  q_stream s = concat (map frame ps) /\
+  q_tx s = lenN (q_stream s) mod two64 /\
+  q_rx_count ps = lenN (q_stream s) mod two64.
+Proof.
+  destruct (q_counters ps) as [H1 H2]. cbn zeta. repeat split; auto.
+  rewrite H1. apply q_rx_counter.
+Qed.
+
 (* ---------- datagram sequence numbers ---------- *)
 
 Lemma d_write_seq P s p : d_seqctr (d_write P s p) = seq_next (d_seqctr s).
